@@ -7,6 +7,7 @@ import (
 	"context"
 	"encoding/json"
 	"fmt"
+	"sort"
 
 	"golang.org/x/mod/semver"
 
@@ -162,8 +163,15 @@ func resourceReservationServiceAccount(
 		}
 	}
 
-	sa.ImagePullSecrets = make([]v1.LocalObjectReference, 0, len(imagePullSecrets))
+	// a nil list when there is none (an empty list is not stored by the API server) and a stable order otherwise,
+	// so that an unchanged configuration renders the object it reads back
+	secretNames := make([]string, 0, len(imagePullSecrets))
 	for secretName := range imagePullSecrets {
+		secretNames = append(secretNames, secretName)
+	}
+	sort.Strings(secretNames)
+	sa.ImagePullSecrets = nil
+	for _, secretName := range secretNames {
 		sa.ImagePullSecrets = append(sa.ImagePullSecrets, v1.LocalObjectReference{Name: secretName})
 	}
 
